@@ -4,6 +4,7 @@ package main
 
 import (
 	"crypto/sha256"
+	"encoding/pem"
 	"fmt"
 	"os"
 	"os/exec"
@@ -11,6 +12,7 @@ import (
 	"strings"
 	"time"
 
+	"github.com/edutko/decipher/internal/asn1struct"
 	"github.com/edutko/decipher/internal/file"
 )
 
@@ -117,6 +119,8 @@ func multiValued() []sample {
 	out = append(out,
 		sample{"jwt", "jwt7", []byte("eyJhbGciOiJSUzI1NiIsInR5cCI6IkpXVCIsImtpZCI6ImsxIn0.eyJpc3MiOiJpIiwic3ViIjoicyIsImF1ZCI6ImEiLCJleHAiOjE3MDAwMDAwMDAsIm5iZiI6MTcwMDAwMDAwMCwiaWF0IjoxNzAwMDAwMDAwLCJqdGkiOiJqIn0.c2ln")},
 		sample{"pgp", "pgp3", pgpArmoredMulti([]string{"Alice", "Bob", "Carol", "Dave"})},
+		sample{"jwt", "jwtq", []byte("eyJhbGciOiJIUzI1NiJ9.eyJleHAiOiIxNzAwMDAwMDAwIiwiaWF0IjoiMTcwMDAwMDAwMCIsIm5iZiI6IjAiLCJzdWIiOiJ4In0.c2ln")},
+		sample{"pgp", "pgpcase", pgpCaseTwins()},
 		sample{"pgp", "pgp1", pgpArmored(false)}, sample{"pgp", "pgppriv", pgpArmored(true)},
 		sample{"authkeys", "ak", []byte(strings.Join(sshKeyLines()[:3], "\n") + "\n")})
 	return out
@@ -165,6 +169,32 @@ func genC09(tier string, r *rng) {
 		}
 		return sample{s.class + "-mut", s.name, d}
 	}
+	// every ordered pair (and a few triples) of "context-setting" and "context-sensitive" inputs: parameter files,
+	// keys that lack optional fields, explicit-parameter keys and their one-bit mutants, reserved-name twins
+	var special []sample
+	for _, s := range pool {
+		if strings.HasSuffix(s.name, ".param") || strings.Contains(s.name, "explicit") {
+			special = append(special, s)
+		}
+	}
+	if len(special) > 8 {
+		special = special[:8]
+	}
+	bareEC := mustMarshal(asn1struct.ECPrivateKey{Version: 1, PrivateKey: []byte{1, 2, 3, 4}}) // no parameters, no public key
+	special = append(special, sample{"pem", "ec-noparams.key", pem.EncodeToMemory(&pem.Block{Type: "EC PRIVATE KEY", Bytes: bareEC})},
+		sample{"der", "ec-noparams.der", bareEC},
+		sample{"pem", "pub-only.pem", pem.EncodeToMemory(&pem.Block{Type: "PUBLIC KEY", Bytes: []byte{0x30, 0x00}})})
+	for _, s := range first {
+		special = append(special, mut(s))
+	}
+	for i, a := range special {
+		for j, b := range special {
+			if i == j {
+				continue
+			}
+			emit("seq", "3", hxs("f.bin"), hx(b.data), hxs("f.bin"), hx(a.data), hxs("g.bin"), hx(b.data))
+		}
+	}
 	nseq, slen := 12, 50
 	if tier == "thorough" {
 		nseq, slen = 40, 400
@@ -195,4 +225,15 @@ func genC09(tier string, r *rng) {
 		emit("seq", args...)
 	}
 	_ = file.Info{}
+}
+
+// pgpCaseTwins: a key whose user IDs differ only in letter case / accents (sort ties under case folding)
+func pgpCaseTwins() []byte {
+	p := pgpKeyFactories()[3](1700000000)
+	ids := []pgpIdentity{{name: "Alice Example <alice@example.org>", flags: 3, sigCreated: 1700000000, lifetime: -1},
+		{name: "Alice Example <ALICE@EXAMPLE.ORG>", flags: 3, sigCreated: 1700000001, lifetime: -1},
+		{name: "ALICE EXAMPLE <alice@example.org>", flags: 3, sigCreated: 1700000002, lifetime: 86400},
+		{name: "alice example <alice@example.org>", flags: 1, sigCreated: 1700000003, lifetime: -1}}
+	b := buildPGP(p, ids, nil, false)
+	return pgpArmor("PGP PUBLIC KEY BLOCK", b.binary)
 }
